@@ -8,6 +8,8 @@
 //! pipeline.
 
 pub(crate) mod emit;
+#[cfg(veryl_verif)]
+pub use emit::verif;
 
 use crate::backend::{Backend, CompileCtx, CompiledWhole, DispatchOutcome};
 use crate::ir::{Event, ProtoStatement};
@@ -112,6 +114,8 @@ struct AotCWhole {
 
 impl CompiledWhole for AotCWhole {
     fn try_dispatch(&self, ff: *const u8, comb: *mut u8, log: *mut u8) -> DispatchOutcome {
+        #[cfg(veryl_verif)]
+        emit::verif::on_dispatch(&self.cell);
         match self.cell.get() {
             Some(m) => {
                 // SAFETY: caller provides pointers valid for the
@@ -128,6 +132,8 @@ impl CompiledWhole for AotCWhole {
     }
 
     fn try_dispatch_const(&self, ff: *const u8, comb: *mut u8, log: *mut u8) -> DispatchOutcome {
+        #[cfg(veryl_verif)]
+        emit::verif::on_dispatch(&self.cell);
         match self.cell.get() {
             Some(m) => {
                 if let Some(f) = m.const_func {
